@@ -427,6 +427,8 @@ func c07Run(c *engine.Ctx) {
 	}
 	corpus = append(corpus, collectionCorpus(c.Thorough())...)
 	corpus = append(corpus, bigCorpus(false)...)
+	corpus = append(corpus, deepCollections(geom.XY, 10)...)
+	corpus = append(corpus, deepCollections(geom.XYZ, 6)...)
 	for _, n := range []int{5, 17, 65} {
 		pat := make([]int, n)
 		var shape [][]int
